@@ -241,6 +241,7 @@ static std::string cmdProducers(const std::vector<std::string>& a) {
 	std::string exc;
 	long long t0 = nowUs();
 	bool timeout = false;
+	bool drainCapped = false;
 	try {
 		Interpreter interp = Interpreter::fromXML(xml, "");
 		setupInterpreter(interp, engine, &w, false, "");
@@ -275,16 +276,18 @@ static std::string cmdProducers(const std::vector<std::string>& a) {
 		long long deadline = nowUs() + 20000000LL;
 		long stepsLeft = total * 300 + 3000;   // a chart that never stabilises must not produce a 20 s trace
 		while (seen->load() < total) {
-			if (--stepsLeft < 0) { timeout = true; break; }
+			if (stepsLeft < 0) { timeout = true; break; }
 			InterpreterState st = interp.step(blockMs < 0 ? (size_t)200 : (size_t)blockMs);   // 'forever' is emulated by a long wait so the watchdog can fire
+			if (st != USCXML_IDLE) stepsLeft--;   // idle polls while the producers have not delivered yet do not count
 			if (st == USCXML_FINISHED) break;
 			if (nowUs() > deadline) { timeout = true; break; }
 		}
 		for (auto& t : producers) t.join();
 		// drain: run until idle
+		drainCapped = !timeout;
 		for (int i = 0; i < 2000 && !timeout; i++) {
 			InterpreterState st = interp.step(0);
-			if (st == USCXML_IDLE || st == USCXML_FINISHED) break;
+			if (st == USCXML_IDLE || st == USCXML_FINISHED) { drainCapped = false; break; }
 		}
 		installCtl(NULL);
 		interp.removeMonitor(&cm);
@@ -297,6 +300,7 @@ static std::string cmdProducers(const std::vector<std::string>& a) {
 	}
 	w.endArr();
 	w.key("timeout").boolean(timeout);
+	w.key("drain_capped").boolean(drainCapped);
 	w.key("hook_hits").num(ctl.hits.load());
 	w.key("wall_ms").num((nowUs() - t0) / 1000);
 	if (exc.size()) w.key("exception").str(exc);
@@ -347,7 +351,12 @@ static std::string cmdTimed(const std::vector<std::string>& a) {
 		}
 		installCtl(&ctl);
 		bool finished = false;
+		long long lastIter = nowUs();
 		while (!finished) {
+			// a stall of the whole process (load, I/O) must not eat the time the chart was given: extend the run by it
+			long long gap = (nowUs() - lastIter) / 1000;
+			if (gap > 20 && untilMs < 60000) untilMs += gap;
+			lastIter = nowUs();
 			long long el = (nowUs() - t0) / 1000;
 			if (el > untilMs) break;
 			if (opts.count("destroyparked") && ctl.parked.load() > 0) break;
